@@ -3,6 +3,7 @@ CONSTANTS T = 6
           NI = 3
           Labels = {"a", "A", "b"}
           FS = {1, 2}
+          Step = 1
 INVARIANT FormulationsAgree
 INVARIANT SwapSym
 INVARIANT InRange
